@@ -16,6 +16,11 @@ CHECKS = {
    text="Apalache decides the invariant of models/Thresholds.tla for every n in 1..2^64-1; TLC enumerates the model's states explicitly and every dumped state is replayed against the real max_faulty_weight/quorum_threshold/subquorum_threshold and Schedule methods; the real functions are additionally enumerated exhaustively over [1,2^28] (quick) / [1,2^34] (thorough), windows around every power of two and the top of the u64 range, against a u128 transcription and the inequalities themselves. This is the only property whose whole domain is covered (on the model); the code is bound to the model by finite replay.",
    note="Model <-> code correspondence outside the enumerated ranges rests on the three one-line formulas; Apalache (SMT-backed symbolic model checker) and TLC are trusted.",
    technique="symbolic + explicit-state model checking of a TLA+ model (Apalache, TLC) with replay of every TLC state against the implementation; exhaustive range enumeration on the real functions"),
+ "C09": dict(
+   category="exploration", design="DESIGN.md §4 C09",
+   text="For each of 58 wire/storage message types (roles, std, and the network crate's private handshake / preface / RPC types through the hook): well-formed samples with boundary values plus every proto-level value within 1 (quick) / 2 (thorough) field deviations of a sample (field removed, duplicated, retyped, replaced by every element of its boundary alphabet). Every input that decodes is checked on the real encode/decode/canonical_raw: decode(encode(v)) == v, encoding stable under re-decoding, encode(v) is a fixed point of canonical_raw and agrees with an independent minimal-varint writer, every alternative field order (every message node, any depth) normalises to encode(v) and decodes to an equal value. Certificates and schedules built in every vote / listing order must be equal, encode and hash identically; packed / unpacked / mixed repeated scalars are normalised by the real canonical_raw on a harness-built descriptor.",
+   note="prost's decoder is trusted; values outside the boundary alphabets, non-minimal varints and >2 simultaneous deviations are outside the scope.",
+   technique="exhaustive bounded enumeration of inputs (deviation-bounded proto values x alternative serialisations) on the real code with round-trip / canonical-form oracles"),
  "C11": dict(
    category="exploration", design="DESIGN.md §4 C11",
    text="Exhaustive small-scope enumeration on the real Schedule::new/view_leader: every weight vector over {1,2,3} up to 4 (quick) / 5 (thorough) validators x every non-empty eligible subset x both modes x frequency {0,1,2,3,7}, unit schedule of 10, extreme weights; every view of a 2268-element boundary set; every permutation of the input list. Oracle: no panic, eligible-only, order-independent, equality with an independent reference (own Keccak call, u128 reduction), constant for frequency 0, proportional share over 2000 turns.",
